@@ -50,6 +50,11 @@ def run(ctx, driver):
     # connection, and are closed afterwards (h2 forgets a finished stream as soon as another one sends its head)
     concur.explore(ctx, rec, ID, {"p_fault": 0.0, "p_cancel": 0.0, "http2": True, "max_connections": 1, "p_conn_close": 0.0, "p_hold": 0.6,
                                   "callers": 4, "kind": "direct", "origins": 1}, 40, 800, ["C05:"])
+    # HTTP/2 uploads stalled on flow control whose streams the server resets while other requests queue for the only stream slot: the slot
+    # and the event list of a request that fails come back (nobody is left waiting for them)
+    import h2x
+    h2x.explore(ctx, rec, ID, dict(max_connections=1, callers=3, p_rst=0.5, early_response=False, segment="coarse", init_max_streams=1,
+                                   ups=[300, 70000, 200000], auto_credit=False, max_steps=150), 40, 1000, ["C12:wedged", "C07:live-lock"])
     import wrapb
     wrapb.run(rec, driver)
     return rec.finish("C05 sweeps + explorer", sweeprun.RULE)
